@@ -48,11 +48,12 @@ def main():
             print("VIOLATION property=%s replay=%s\n   %s" % (PID, chk.replay, msg))
         return 1 if c13 else 0
 
-    cfgs = [("MC_RpycServe_2.cfg", "exhaustive: 2 clients (2+1 requests), no background thread"),
-            ("MC_RpycServe_1bg.cfg", "exhaustive: 1 client (2 requests) + background serving thread")]
+    h = "_h" if sc.handoff_repaired() else ""       # the specification's variant that matches the working tree's serve()
+    cfgs = [("MC_RpycServe_2%s.cfg" % h, "exhaustive: 2 clients (2+1 requests), no background thread"),
+            ("MC_RpycServe_1bg%s.cfg" % h, "exhaustive: 1 client (2 requests) + background serving thread")]
     if chk.thorough:
-        cfgs += [("MC_RpycServe_2bg.cfg", "exhaustive: 2 clients + background serving thread"),
-                 ("MC_RpycServe_3.cfg", "exhaustive: 3 clients")]
+        cfgs += [("MC_RpycServe_2bg%s.cfg" % h, "exhaustive: 2 clients + background serving thread"),
+                 ("MC_RpycServe_3%s.cfg" % h, "exhaustive: 3 clients")]
     model_check(chk, cfgs)
     # spec -> code
     for cfgname, mp in ([("2s", 1500), ("1bg", 1500)] if not chk.thorough else [("2", 12000), ("1bg", 6000), ("2bg", 6000)]):
